@@ -244,6 +244,9 @@ func (w *World) containerFields() map[string]string {
 			if !ok {
 				continue
 			}
+			if w.isNewTypeName(short(p.PkgPath) + "." + tn.Name()) {
+				continue // a new carrier type: state lives where its instances are kept (a field of a reviewed type, a package variable), and those are inventoried
+			}
 			for i := 0; i < st.NumFields(); i++ {
 				f := st.Field(i)
 				kind := ""
